@@ -262,8 +262,7 @@ func (c *Ctx) lexStateModel(fd *ast.FuncDecl) *lexStateModel {
 			return false
 		}
 		// state functions are returned, not called
-		sig := fn.Type().(*types.Signature)
-		if scheme := c.lexStates(); scheme != nil && sig.Recv() == nil && types.Identical(sig, scheme.sig) {
+		if c.lexStates().isState(fn) {
 			return false
 		}
 		return true
